@@ -36,6 +36,22 @@ pub fn draw_order(rng: &mut Rng, max: usize) -> usize {
     o.clamp(1, max)
 }
 
+/// `draw_order` with a heavy tail: once in 25 draws an order around the powers of two above the word
+/// size (63..=300), whatever the tier: size thresholds (a 64-bit word, "at least 64 entries per
+/// worker") are where rewritten code goes wrong.
+pub fn draw_order_tail(rng: &mut Rng, max: usize) -> usize {
+    if rng.chance(1, 25) {
+        if rng.chance(1, 2) {
+            *rng.pick(&[63, 64, 65, 66, 95, 96, 127, 128, 129, 130, 160, 191, 192, 193, 256, 257, 300])
+        } else {
+            // every residue class of the order
+            rng.range(21, 140)
+        }
+    } else {
+        draw_order(rng, max)
+    }
+}
+
 pub fn draw_p(rng: &mut Rng) -> f64 {
     match rng.below(10) {
         0 => 0.0,
@@ -50,19 +66,23 @@ pub fn draw_p(rng: &mut Rng) -> f64 {
 
 /// Two operands for AdjacencyMap::union with related vertex sets.
 pub fn draw_map_pair(rng: &mut Rng, max: usize) -> (Dg, Dg) {
-    let n1 = draw_order(rng, max);
+    let n1 = draw_order_tail(rng, max);
     let v1 = random_vertex_set(rng, n1, 3 * max);
     let v2 = match rng.below(6) {
         0 => v1.clone(),
         1 => {
-            // disjoint block above
-            let hi = v1.iter().max().unwrap() + 1;
+            // disjoint block above (below, when the ids are at the top of the range)
             let n2 = draw_order(rng, max);
-            (hi..hi + n2).collect()
+            let top = *v1.iter().max().unwrap();
+            if top < usize::MAX - n2 - 1 {
+                (top + 1..top + 1 + n2).collect()
+            } else {
+                (0..n2).filter(|x| !v1.contains(x)).chain(std::iter::once(n2 + 1)).collect()
+            }
         }
         2 => {
             // interleaved: shift by one
-            v1.iter().map(|x| x + 1).collect()
+            v1.iter().map(|&x| if x == usize::MAX { 0 } else { x + 1 }).collect()
         }
         3 => {
             // subset
@@ -72,11 +92,15 @@ pub fn draw_map_pair(rng: &mut Rng, max: usize) -> (Dg, Dg) {
             v.into_iter().collect()
         }
         _ => {
-            let n2 = draw_order(rng, max);
+            let n2 = draw_order_tail(rng, max);
             random_vertex_set(rng, n2, 3 * max)
         }
     };
-    let (p1, p2) = (draw_density(rng).min(700), draw_density(rng).min(700));
+    let (mut p1, mut p2) = (draw_density(rng).min(700), draw_density(rng).min(700));
+    if v1.len() + v2.len() > 130 {
+        p1 = p1.min(40);
+        p2 = p2.min(40);
+    }
     let d = random_dg_on(rng, &v1, p1);
     let e = random_dg_on(rng, &v2, p2);
     (d, e)
@@ -84,8 +108,9 @@ pub fn draw_map_pair(rng: &mut Rng, max: usize) -> (Dg, Dg) {
 
 /// A contiguous digraph with order drawn around a thread count and mixed density.
 pub fn draw_dg(rng: &mut Rng, max: usize) -> Dg {
-    let n = draw_order(rng, max);
-    let p = draw_density(rng);
+    let n = draw_order_tail(rng, max);
+    // large digraphs are kept sparse or very dense so that the quadratic operations stay cheap
+    let p = if n > 130 { *rng.pick(&[5, 20, 60]) } else { draw_density(rng) };
     random_dg(rng, n, p)
 }
 
@@ -98,10 +123,10 @@ pub fn draw_top(rng: &mut Rng, tier: Tier, kind: usize) -> TOp {
     let max = if rng.chance(1, 6) { max } else { max.min(36) };
     match kind {
         0 => TOp::ListComplement { d: draw_dg(rng, max) },
-        1 => TOp::ListComplete { order: draw_order(rng, max) },
+        1 => TOp::ListComplete { order: draw_order_tail(rng, max) },
         2 => TOp::ListDegreeSequence { d: draw_dg(rng, max) },
         3 => {
-            let n = draw_order(rng, max);
+            let n = draw_order_tail(rng, max).min(130);
             let d = match rng.below(6) {
                 0 => {
                     let p = draw_density(rng).max(500);
@@ -113,13 +138,13 @@ pub fn draw_top(rng: &mut Rng, tier: Tier, kind: usize) -> TOp {
             TOp::ListIsSemicomplete { d }
         }
         4 => {
-            let n1 = draw_order(rng, max);
+            let n1 = draw_order_tail(rng, max);
             let n2 = match rng.below(4) {
                 0 => n1,
                 1 => rng.range(1, n1),
-                _ => draw_order(rng, max),
+                _ => draw_order_tail(rng, max),
             };
-            let (p1, p2) = (draw_density(rng), draw_density(rng));
+            let (p1, p2) = if n1.max(n2) > 130 { (20, 40) } else { (draw_density(rng), draw_density(rng)) };
             TOp::ListUnion { d: random_dg(rng, n1, p1), e: random_dg(rng, n2, p2) }
         }
         5 => {
@@ -128,18 +153,23 @@ pub fn draw_top(rng: &mut Rng, tier: Tier, kind: usize) -> TOp {
         }
         6 => {
             let p = draw_p(rng);
-            let order = draw_order(rng, max);
+            let order = draw_order_tail(rng, max).min(200);
             TOp::MapErdosRenyi { order, p_bits: p.to_bits(), p: format!("{p:?}"), seed: draw_seed(rng) }
         }
         _ => {
-            let order = draw_order(rng, max);
+            let order = draw_order_tail(rng, max).min(200);
             TOp::MapRandomTournament { order, seed: draw_seed(rng) }
         }
     }
 }
 
 pub fn draw_seed(rng: &mut Rng) -> u64 {
-    match rng.below(8) {
+    match rng.below(9) {
+        8 => {
+            // boundary of the seed space: the first draw of worker `tid` is exactly 0.0
+            let tid = rng.below(4) as u64;
+            vmodel::gen::seed_with_first_draw_zero(rng.next_u64()).wrapping_sub(tid)
+        }
         0 => 0,
         1 => 1,
         2 => u64::MAX,
@@ -244,7 +274,11 @@ impl Lane for C17 {
     fn draw(rng: &mut Rng, tier: Tier, _run_index: u64) -> Scenario<Body> {
         let kind = rng.below(8);
         let op = draw_top(rng, tier, kind);
-        let confs = draw_confs(rng, tier, op.rows());
+        let mut confs = draw_confs(rng, tier, op.rows());
+        if op.rows() > 100 {
+            // large inputs are there for size thresholds, not for schedule variety: every third configuration
+            confs = confs.into_iter().step_by(3).collect();
+        }
         Scenario { body: Body { op }, confs }
     }
 
